@@ -2982,6 +2982,20 @@ impl ModuleGraph {
   }
 
   /// Slot kind per specifier: 0 = module, 1 = error, 2 = pending.
+  /// Runs the crate-private `Builder::add_redirect` on this graph (the
+  /// builder is created with the given loader and options and dropped
+  /// again; nothing is loaded).
+  pub fn verif_add_redirect<'a>(
+    &mut self,
+    loader: &'a dyn Loader,
+    options: BuildOptions<'a>,
+    requested_specifier: ModuleSpecifier,
+    specifier: ModuleSpecifier,
+  ) {
+    let mut builder = Builder::new(self, loader, options);
+    builder.add_redirect(requested_specifier, specifier);
+  }
+
   pub fn verif_slot_kinds(&self) -> Vec<(ModuleSpecifier, u8)> {
     self
       .module_slots
